@@ -192,7 +192,6 @@ theorem src_retry_run (c : Cfg) (retries : Int) (op : Nat → Outcome) (ctx : Ct
       have h := src_retry_loop op none ev rnd late hd hhd c.norm retries fuel 1
         (newFError (.op 1) c.keepErrs) [] true (.extN 1) (by omega)
       by_cases hm : c.max ≤ 0 <;> by_cases hb : c.backOff ≤ 0 <;>
-        simp [retryEnv, hop, callOp, decErr, hm, hb] <;>
-        simpa [retryEnv, callOp, decErr, isExceeds, Cfg.norm, hm, hb, maxInt64] using h
+        simp [retryEnv, hop, callOp, decErr, isExceeds, Cfg.norm, hm, hb, maxInt64] at h ⊢ <;> exact h
 
 end LLRP.SeqGlue
